@@ -86,6 +86,8 @@ def _gen_step(rng, sim, removed_pool, failing, tags):
         if not fresh:
             return None
         new = rng.choice(fresh)
+        if sim.version == "gfa2" and r.rt in ("E", "G", "O", "U") and rng.random() < 0.15:
+            new = "*"
         if sim.version == "gfa1" and r.rt in ("S", "P") and not S.fm("name1", new):
             return None
         return {"op": "rename", "name": n, "new": new, "rt": r.rt, "text": r.text()}
@@ -238,6 +240,15 @@ def _gen_failing_step(rng, sim, named):
 
 
 def rename_verdict(model, r, new):
+    if new == "*":
+        # the identifier is removed: possible for the record types whose identifier is optional,
+        # unless a group refers to the record by that identifier
+        if model.version != "gfa2" or r.rt not in ("E", "G", "O", "U"):
+            return "skip"
+        old = T.ident(r)
+        if any(m == old for x in model.recs for m, role in T.mentions(x)):
+            return "fail"
+        return "ok"
     if new in model.names():
         other = model.by_name(new)
         if other is r:
